@@ -10,10 +10,16 @@
 Rendering variants (subroutines before/after main, fall-off-the-end) are enumerated too.
 """
 import itertools
+import hashlib
 from typing import Any, Dict, Iterator, List, Optional, Sequence, Set, Tuple
 
 from mc.gen import core
 from mc.gen.atoms import Atom, FREE, FREE2
+
+
+def _h(s: str) -> bytes:
+    """128-bit digest used to de-duplicate programs without keeping their text."""
+    return hashlib.md5(s.encode()).digest()
 
 
 def _fill_one(nslots: int, alphabet: Sequence[Atom], free: Atom) -> Iterator[List[Atom]]:
@@ -37,6 +43,53 @@ def _render_all(prog: Any, atoms: List[Atom], fall_off: bool, version: int, pad:
             yield core.render(prog, atoms, subs_first=subs_first, fall_off=True, version=version, pad=pad)
 
 
+def unresolvable_constants(srcs: Sequence[str], limit: int) -> Iterator[str]:
+    """Soundness-only variants: every integer constant goes through an intcblock that tealer
+    cannot resolve (two intcblock instructions).  An evenly spaced subset of ``srcs``."""
+    from mc.gen.rewrites import int_to_intc_unresolvable  # pylint: disable=import-outside-toplevel
+
+    step = max(1, len(srcs) // max(1, limit))
+    for s in list(srcs)[::step]:
+        r = int_to_intc_unresolvable(s)
+        if r is not None:
+            yield r[0]
+
+
+FREES: List[Atom] = [["txn FirstValid", "int 7", ">"], ["txn LastValid", "int 7", ">"], ["txn Amount", "int 7", ">"],
+                     ["txn AssetAmount", "int 7", ">"], ["txn VoteFirst", "int 7", ">"], ["txn VoteLast", "int 7", ">"]]
+
+
+def call_chains(tracked: Atom) -> Iterator[Tuple[Any, List[Atom]]]:
+    """L4 - call chains main -> S0 -> S1 with optional checks / early exits before and after each
+    call and in the innermost body (callees that end the program themselves, checks that only
+    happen after a call returns, ...).  Slot 0 is the tracked atom, slots 1.. are independent
+    free conditions."""
+    T = ("slot", 0)
+
+    def opts(free_slot: int) -> List[Any]:
+        return [(), (("assert", T),), (("if", ("slot", free_slot), "bz", (("ret1",),), None),)]
+
+    bodies = [(), (("assert", T),), (("if", ("slot", 5), "bz", (("ret1",),), None),), (("if", ("slot", 5), "bz", (("err",),), None),),
+              (("ret", T),), (("if", T, "bz", (("ret1",),), None),), (("if", T, "bnz", (("ret1",),), None),)]
+    for pre0 in opts(1):
+        for post0 in opts(2):
+            for pre1 in opts(3):
+                for post1 in opts(4):
+                    for body in bodies:
+                        main = pre0 + (("call", 0),) + post0
+                        s0 = pre1 + (("call", 1),) + post1
+                        if T not in [x for st in main + s0 + body for x in st[1:2]] and not any(st[0] == "ret" for st in body):
+                            pass
+                        yield (main, (s0, body)), [tracked] + FREES[:5]
+
+
+def shared_callee(size: int = 4) -> Iterator[Tuple[Any, int]]:
+    """L5 - two subroutines, size-4 programs over {assert, if, call, ret1}: a subroutine called
+    from main and from the other subroutine (different call depths, different worklist order)."""
+    o = core.Opts(kinds=("assert", "if", "call", "ret1"), cond_level=0, nsubs=2, pols=("bz",))
+    yield from core.skeletons(size, o)
+
+
 def layered(  # pylint: disable=too-many-arguments,too-many-locals,too-many-branches
     full: Sequence[Atom],
     small: Sequence[Atom],
@@ -50,13 +103,15 @@ def layered(  # pylint: disable=too-many-arguments,too-many-locals,too-many-bran
     max_subs: Optional[int] = None,
     pad: Sequence[str] = ("int 7", "pop"),
     l2_top_alpha: Optional[int] = None,
+    chains: bool = True,
 ) -> Iterator[str]:
-    seen: Set[str] = set()
+    seen: Set[bytes] = set()
 
     def emit(prog: Any, atoms: List[Atom], fo: bool) -> Iterator[str]:
         for s in _render_all(prog, atoms, fo, version, pad):
-            if s not in seen:
-                seen.add(s)
+            h = _h(s)
+            if h not in seen:
+                seen.add(h)
                 yield s
 
     # L1
@@ -90,6 +145,17 @@ def layered(  # pylint: disable=too-many-arguments,too-many-locals,too-many-bran
                     continue
                 for at in _fill_one(k, alpha, free):
                     yield from emit(prog, at, False)
+    # L4 call chains / L5 shared callee at different depths (structure layers: one tracked atom)
+    if chains and small:
+        for tracked in small[:2] if tier == "quick" else small[:4]:
+            for prog, ats in call_chains(tracked):
+                yield from emit(prog, ats, False)
+        if tier == "quick" and (max_subs is None or max_subs >= 2):
+            for prog, k in shared_callee(4):
+                if k == 0:
+                    continue
+                for j in range(k):
+                    yield from emit(prog, [small[0] if i == j else FREES[i % len(FREES)] for i in range(k)], False)
     # L3
     if l3:
         o1 = core.Opts(kinds=kinds, cond_level=1, nsubs=0)
